@@ -192,6 +192,24 @@ def r4_run_address_bookkeeping(ctx: Ctx) -> None:
     r3_position_nodes(ctx)
 
 
+def r5_bank_classification(ctx: Ctx) -> None:
+    """which banks are RAM (branch rejected) and which are ROM is what the bus tables say: built-in layouts, bank lookup construction
+    (last mapping of a bank wins) and `no offset exactly for writable mappings` (the C04.R1 / R2 obligations and the RAM clause of C04.R4)"""
+    from .c04 import r1_builtin_maps, r2_mirror_construction, ram_has_no_offset
+
+    r1_builtin_maps(ctx)
+    r2_mirror_construction(ctx)
+    ram_has_no_offset(ctx)
+
+
+def r6_layout_agreement(ctx: Ctx) -> None:
+    """the displacement is a difference of label addresses: every statement between branch and target advances the address by what
+    it emits (the C02.R1 obligation)"""
+    from .c02 import r1_per_class_length_agreement
+
+    r1_per_class_length_agreement(ctx)
+
+
 def rb_binding_agreement(ctx: Ctx) -> None:
     from ..ownership import binding_agreement
 
@@ -205,4 +223,4 @@ def rm_no_process_lifetime_results(ctx: Ctx) -> None:
     state_rule(ctx)
 
 
-RULES = [r1_no_truncation, r2_bias_equals_length, r3_both_ends_checked, r4_run_address_bookkeeping, rb_binding_agreement, rm_no_process_lifetime_results]
+RULES = [r1_no_truncation, r2_bias_equals_length, r3_both_ends_checked, r4_run_address_bookkeeping, r5_bank_classification, r6_layout_agreement, rb_binding_agreement, rm_no_process_lifetime_results]
